@@ -67,6 +67,7 @@ func convertToParagraph(data reflect.Value) (*Paragraph, error) {
 
 	paragraphType := reflect.TypeOf(Paragraph{})
 	var foundParagraph Paragraph = Paragraph{}
+	cleared := []string{}
 
 	for i := 0; i < data.NumField(); i++ {
 		field := data.Field(i)
@@ -96,6 +97,9 @@ func convertToParagraph(data reflect.Value) (*Paragraph, error) {
 
 		required := fieldType.Tag.Get("required") == "true"
 		if data == "" && !required {
+			/* the struct no longer has a value for this field: do not let a
+			 * stale copy in the embedded Paragraph bring it back */
+			cleared = append(cleared, paragraphKey)
 			continue
 		}
 
@@ -105,6 +109,22 @@ func convertToParagraph(data reflect.Value) (*Paragraph, error) {
 
 		order = append(order, paragraphKey)
 		values[paragraphKey] = data
+	}
+	if len(cleared) > 0 && len(foundParagraph.Order) > 0 {
+		kept := Paragraph{Order: []string{}, Values: map[string]string{}}
+		for _, key := range foundParagraph.Order {
+			isCleared := false
+			for _, el := range cleared {
+				if el == key {
+					isCleared = true
+				}
+			}
+			if !isCleared {
+				kept.Order = append(kept.Order, key)
+				kept.Values[key] = foundParagraph.Values[key]
+			}
+		}
+		foundParagraph = kept
 	}
 	para := foundParagraph.Update(Paragraph{Order: order, Values: values})
 	return &para, nil
